@@ -169,12 +169,13 @@ type RunCtx struct {
 	KeepLog bool
 	Log     []string
 	// decision tape spanning every simulated execution of the scenario
-	sc         *Scenario
-	cursor     int
-	execs      int
-	Recorded   []uint64
-	MaxSteps   int         // scheduling-step cap for the executions of this run (0 = simrt default)
-	regProfile *RegProfile // capability profile for simulated registries created by makeStore
+	sc          *Scenario
+	cursor      int
+	execs       int
+	Recorded    []uint64
+	MaxSteps    int         // scheduling-step cap for the executions of this run (0 = simrt default)
+	regProfile  *RegProfile // capability profile for simulated registries created by makeStore
+	refPageSize int         // Repository.ReferrerListPageSize of the repositories created by makeStore
 }
 
 // NextConfig returns the scheduler configuration for the next simulated
